@@ -30,7 +30,15 @@ def run(ctx):
         e2e = v["lit"][0] in ("ql1", "ql2") and v["ok"] and v["stop"] == len(v["lit"]) and (v["mode"] == "roundtrip" or i % 5 == 0)
         # a sample of the round-trip literals also as LONG literals in a file: the body starts 2..0 bytes before / at a 4096-byte block boundary
         pads = [4096 * (1 + i % 2) - 9 - d for d in (0, 1, 2, 3)] if (e2e and v["mode"] == "roundtrip" and i % (25 if quick else 4) == 0) else []
-        cases.append(dict(id=i, lit=v["lit"], val=v["val"], reps=[0, 1 + (i + ctx.seed) % 10] if quick else [0, 1, 2, 3, 7, 10], e2e=e2e, pads=pads))
+        # ... and with a 2-, 3- or 4-byte character in front of the body that straddles the block boundary at every split point
+        # (value = letters + that character + the text)
+        strad = []
+        if pads:
+            m = 4096 * (1 + i % 2)
+            for w in ("é", "你", "𝄞", "\U0010FFFD"):
+                for sp in range(1, len(w.encode()) ):
+                    strad.append([m - 9 - sp, w])
+        cases.append(dict(id=i, lit=v["lit"], val=v["val"], reps=[0, 1 + (i + ctx.seed) % 10] if quick else [0, 1, 2, 3, 7, 10], e2e=e2e, pads=pads, strad=strad))
     res = common.run_harness(ctx, znh, "strlit", cases, timeout=3000)
     nrt = ndec = nsoft = 0
     for r in res:
@@ -57,7 +65,7 @@ def run(ctx):
                 else:
                     for k_, fr in run_.items():
                         if k_.startswith("file_") and not fr.get("eq"):
-                            rep("long-literal-in-file", "literal %r preceded by %d letters, read from a file: value %s, expected %r after the letters" % (run_["src"], fr["pad"], fr.get("got_tail", fr.get("msg")), run_["want"]))
+                            rep("long-literal-in-file", "literal %r preceded by %d letters" + (" and %r across the block boundary" % fr["w"] if fr.get("w") else "") + ", read from a file: value %s, expected %r after the letters" % (run_["src"], fr["pad"], fr.get("got_tail", fr.get("msg")), run_["want"]))
                             break
             else:
                 if run_["status"] == "ok":
